@@ -45,46 +45,6 @@ theorem J_neutral_steps (l : List Step) (s : St) (h : ∀ st ∈ l, neutral st =
   obtain ⟨h1, h2, h3, h4⟩ := neutral_steps l s h
   exact J_congr s _ h1 h2 h3 h4 hj
 
-/-- one phase of a rebuild: one CRL per issuer of a duplicate-free list, numbered by `f` -/
-theorem phase (stepOf : Nat → Step) (f : Nat → Nat)
-    (hlog : ∀ cur i, ∃ e, (applyStep cur (stepOf i)).log = e :: cur.log ∧ e.issuer = i ∧ e.number = f i)
-    (hfr : ∀ cur i, (applyStep cur (stepOf i)).issuers = cur.issuers ∧ (applyStep cur (stepOf i)).nIssuers = cur.nIssuers ∧
-      (applyStep cur (stepOf i)).counters = cur.counters)
-    (L : List Nat) (hnd : L.Nodup) :
-    ∀ cur, Inc cur.log → (∀ e ∈ cur.log, e.issuer ∈ L → e.number < f e.issuer) →
-      Inc (applySteps cur (L.map stepOf)).log ∧
-      (∀ e ∈ (applySteps cur (L.map stepOf)).log, e ∈ cur.log ∨ (e.issuer ∈ L ∧ e.number = f e.issuer)) ∧
-      (applySteps cur (L.map stepOf)).issuers = cur.issuers ∧ (applySteps cur (L.map stepOf)).nIssuers = cur.nIssuers ∧
-      (applySteps cur (L.map stepOf)).counters = cur.counters := by
-  induction L with
-  | nil => intro cur h _; exact ⟨h, fun e he => Or.inl he, rfl, rfl, rfl⟩
-  | cons a L ih =>
-    intro cur hinc hb
-    obtain ⟨e, hl, hei, hen⟩ := hlog cur a
-    obtain ⟨f1, f2, f3⟩ := hfr cur a
-    have hnd' := List.nodup_cons.mp hnd
-    rw [List.map_cons, applySteps_cons]
-    have hinc' : Inc (applyStep cur (stepOf a)).log := by
-      rw [hl]
-      refine List.pairwise_cons.mpr ⟨fun b hb' hiss => ?_, hinc⟩
-      have : b.issuer ∈ a :: L := by rw [← hiss, hei]; exact List.mem_cons_self ..
-      have := hb b hb' this
-      rw [hen, ← hei, hiss]; exact this
-    have hb'' : ∀ e' ∈ (applyStep cur (stepOf a)).log, e'.issuer ∈ L → e'.number < f e'.issuer := by
-      intro e' he' hi'
-      rw [hl] at he'
-      rcases List.mem_cons.mp he' with rfl | he'
-      · rw [hei] at hi'; exact absurd hi' hnd'.1
-      · exact hb e' he' (List.mem_cons_of_mem _ hi')
-    obtain ⟨r1, r2, r3, r4, r5⟩ := ih hnd'.2 _ hinc' hb''
-    refine ⟨r1, fun e' he' => ?_, r3.trans f1, r4.trans f2, r5.trans f3⟩
-    rcases r2 e' he' with h | ⟨h1, h2⟩
-    · rw [hl] at h
-      rcases List.mem_cons.mp h with rfl | h
-      · right; exact ⟨by rw [hei]; exact List.mem_cons_self .., by rw [hen, hei]⟩
-      · left; exact h
-    · right; exact ⟨List.mem_cons_of_mem _ h1, h2⟩
-
 theorem lookup_map_mk (l : List Nat) (g : Nat → Nat) (i : Nat) (h : i ∈ l) :
     (l.map fun j => (j, g j)).lookup i = some (g i) := by
   induction l with
@@ -99,79 +59,248 @@ theorem lookup_map_mk (l : List Nat) (g : Nat → Nat) (i : Nat) (h : i ∈ l) :
 theorem counter_of_lookup (s : St) (i n : Nat) (h : s.counters.lookup i = some n) : counter s i = n := by
   simp [counter, h]
 
-theorem J_rebuild (s : St) (f : Bool) (o1 o2 : List Nat) (h1 : o1.Nodup) (h2 : o2.Nodup) (hj : J s) :
-    J (applySteps s (rebuildSteps s f o1 o2)) := by
+/-! ### association-list lookups in the persisted counters -/
+
+theorem lookup_append_skip {β : Type} (l1 l2 : List (Nat × β)) (i : Nat) (h : ∀ p ∈ l1, p.1 ≠ i) :
+    (l1 ++ l2).lookup i = l2.lookup i := by
+  induction l1 with
+  | nil => rfl
+  | cons q l ih =>
+    obtain ⟨a, b⟩ := q
+    have ha : (i == a) = false := by
+      have := h (a, b) (List.mem_cons_self ..); simp at this; simp [Ne.symm this]
+    rw [List.cons_append, List.lookup_cons, ha]
+    exact ih (fun p hp => h p (List.mem_cons_of_mem _ hp))
+
+theorem lookup_map_none (l : List Nat) (g : Nat → Nat) (i : Nat) (h : i ∉ l) :
+    (l.map fun j => (j, g j)).lookup i = none := by
+  induction l with
+  | nil => rfl
+  | cons a l ih =>
+    have ha : (i == a) = false := by simp; exact fun e => h (e ▸ List.mem_cons_self ..)
+    rw [List.map_cons, List.lookup_cons, ha]
+    exact ih (fun hm => h (List.mem_cons_of_mem _ hm))
+
+/-- the CRL number a state assigns to a live issuer while a phase is under way -/
+theorem counter_countersAt (s0 cur : St) (base : Nat) (dn : List Nat) (complete : Bool)
+    (hb : complete = true → base = 0) (hcur : cur.counters = countersAt s0 base dn complete) (i : Nat)
+    (hi : i ∈ s0.issuers) : counter cur i = counter s0 i + base + (if i ∈ dn then 1 else 0) := by
+  have hskip : ∀ p ∈ (if complete then s0.counters.filter (fun p => !(p.1 ∈ s0.issuers)) else []), p.1 ≠ i := by
+    intro p hp e
+    split at hp
+    · have := (List.mem_filter.mp hp).2; subst e; simp [hi] at this
+    · simp at hp
+  unfold counter
+  rw [hcur, countersAt, lookup_append_skip _ _ _ hskip]
+  by_cases hc : (decide (i ∈ dn) || !complete || (s0.counters.lookup i).isSome) = true
+  · rw [lookup_map_mk _ (fun j => counter s0 j + base + (if j ∈ dn then 1 else 0)) i
+      (List.mem_filter.mpr ⟨hi, hc⟩)]
+    simp only [counter]
+  · rw [lookup_map_none _ _ i (fun hm => hc (List.mem_filter.mp hm).2)]
+    simp only [Bool.or_eq_true, decide_eq_true_eq, Bool.not_eq_true', not_or, Bool.not_eq_false,
+      Option.not_isSome_iff_eq_none] at hc
+    obtain ⟨⟨h1, h2⟩, h3⟩ := hc
+    simp [h3, h1, hb h2]
+
+/-! ### a phase of a rebuild, interrupted anywhere -/
+
+/-- states inside a phase (`base` 0: complete CRLs, 1: delta CRLs) of a rebuild started in `s0`; `log0` is the log
+    at the start of the phase, `done` the issuers whose number has been advanced -/
+structure PhaseSt (s0 : St) (base : Nat) (log0 : List Ev) (cur : St) (done : List Nat) : Prop where
+  iss : cur.issuers = s0.issuers
+  nis : cur.nIssuers = s0.nIssuers
+  inc : Inc cur.log
+  evs : ∀ e ∈ cur.log, e ∈ log0 ∨ (e.issuer ∈ done ∧ e.issuer ∈ s0.issuers ∧ e.number = counter s0 e.issuer + base)
+  cnt : ∀ i ∈ s0.issuers, counter cur i = counter s0 i + base + (if i ∈ done then 1 else 0)
+
+theorem J_of_phaseSt (s0 : St) (base : Nat) (log0 : List Ev) (cur : St) (done : List Nat)
+    (h0 : ∀ e ∈ log0, e.issuer ∈ s0.issuers → e.number < counter s0 e.issuer + base)
+    (h1 : ∀ e ∈ log0, e.issuer ≤ s0.nIssuers) (h2 : ∀ i ∈ s0.issuers, i ≤ s0.nIssuers)
+    (h : PhaseSt s0 base log0 cur done) : J cur := by
+  refine ⟨h.inc, fun e he hi => ?_, fun e he => ?_, fun i hi => ?_⟩
+  · rw [h.iss] at hi
+    rw [h.cnt _ hi]
+    rcases h.evs e he with hl | ⟨hd, _, hn⟩
+    · have := h0 e hl hi; omega
+    · simp only [hd, ↓reduceIte]; omega
+  · rw [h.nis]
+    rcases h.evs e he with hl | ⟨_, hlive, _⟩
+    · exact h1 e hl
+    · exact h2 _ hlive
+  · rw [h.iss] at hi; rw [h.nis]; exact h2 i hi
+
+theorem phase_prefix (s0 : St) (base : Nat) (log0 : List Ev) (mk : Nat → Step) (kOf : List Nat → Step)
+    (h0 : ∀ e ∈ log0, e.issuer ∈ s0.issuers → e.number < counter s0 e.issuer + base)
+    (hmk : ∀ cur i, ∃ e, (applyStep cur (mk i)).log = e :: cur.log ∧ e.issuer = i ∧ e.number = counter s0 i + base ∧
+      (applyStep cur (mk i)).issuers = cur.issuers ∧ (applyStep cur (mk i)).nIssuers = cur.nIssuers ∧
+      (applyStep cur (mk i)).counters = cur.counters)
+    (hk : ∀ cur dn, (applyStep cur (kOf dn)).log = cur.log ∧ (applyStep cur (kOf dn)).issuers = cur.issuers ∧
+      (applyStep cur (kOf dn)).nIssuers = cur.nIssuers ∧
+      ∀ i ∈ s0.issuers, counter (applyStep cur (kOf dn)) i = counter s0 i + base + (if i ∈ dn then 1 else 0)) :
+    ∀ (L done : List Nat) (cur : St), (∀ a ∈ L, a ∈ s0.issuers) → L.Nodup → (∀ a ∈ L, a ∉ done) →
+      PhaseSt s0 base log0 cur done →
+      ∀ j, ∃ done', PhaseSt s0 base log0 (applySteps cur ((phaseSteps mk kOf done L).take j)) done' := by
+  intro L
+  induction L with
+  | nil => intro done cur _ _ _ h j; exact ⟨done, by simpa [phaseSteps, applySteps] using h⟩
+  | cons a L ih =>
+    intro done cur hlive hnd hdis h j
+    have hnd' := List.nodup_cons.mp hnd
+    have ha : a ∈ s0.issuers := hlive a (List.mem_cons_self ..)
+    have hadone : a ∉ done := hdis a (List.mem_cons_self ..)
+    obtain ⟨k1, k2, k3, k4⟩ := hk cur (a :: done)
+    -- after the counter write
+    have hK : PhaseSt s0 base log0 (applyStep cur (kOf (a :: done))) (a :: done) := by
+      refine ⟨k2.trans h.iss, k3.trans h.nis, by rw [k1]; exact h.inc, fun e he => ?_, k4⟩
+      rw [k1] at he
+      rcases h.evs e he with hl | ⟨hd, hrest⟩
+      · exact Or.inl hl
+      · exact Or.inr ⟨List.mem_cons_of_mem _ hd, hrest⟩
+    -- after the CRL write
+    obtain ⟨e, m1, m2, m3, m4, m5, m6⟩ := hmk (applyStep cur (kOf (a :: done))) a
+    have hC : PhaseSt s0 base log0 (applyStep (applyStep cur (kOf (a :: done))) (mk a)) (a :: done) := by
+      refine ⟨m4.trans hK.iss, m5.trans hK.nis, ?_, fun e' he' => ?_, fun i hi => ?_⟩
+      · rw [m1]
+        refine List.pairwise_cons.mpr ⟨fun b hb hiss => ?_, hK.inc⟩
+        rw [k1] at hb
+        have hbi : b.issuer = a := by rw [← hiss, m2]
+        rcases h.evs b hb with hl | ⟨hd, _⟩
+        · have := h0 b hl (by rw [hbi]; exact ha)
+          rw [m3, ← hbi]; exact this
+        · rw [hbi] at hd; exact absurd hd hadone
+      · rw [m1] at he'
+        rcases List.mem_cons.mp he' with rfl | he'
+        · exact Or.inr ⟨by rw [m2]; exact List.mem_cons_self .., by rw [m2]; exact ha, by rw [m3, m2]⟩
+        · exact hK.evs e' he'
+      · have : counter (applyStep (applyStep cur (kOf (a :: done))) (mk a)) i = counter (applyStep cur (kOf (a :: done))) i := by
+          simp [counter, m6]
+        rw [this]; exact hK.cnt i hi
+    match j with
+    | 0 => exact ⟨done, by simpa [applySteps] using h⟩
+    | 1 => exact ⟨a :: done, by simpa [phaseSteps, applySteps] using hK⟩
+    | j + 2 =>
+      have := ih (a :: done) _ (fun x hx => hlive x (List.mem_cons_of_mem _ hx)) hnd'.2
+        (fun x hx hd => by
+          rcases List.mem_cons.mp hd with rfl | hd
+          · exact hnd'.1 hx
+          · exact hdis x (List.mem_cons_of_mem _ hx) hd) hC j
+      simpa [phaseSteps, applySteps] using this
+
+/-! ### every prefix of every request program keeps the numbering invariant -/
+
+/-- the invariant holds after every prefix of the writes -/
+def AllPre (s : St) (l : List Step) : Prop := ∀ j, J (applySteps s (l.take j))
+
+theorem AllPre.full {s : St} {l : List Step} (h : AllPre s l) : J (applySteps s l) := by
+  have := h l.length; simpa using this
+
+theorem allPre_nil (s : St) (hj : J s) : AllPre s [] := fun j => by simpa [applySteps] using hj
+
+theorem allPre_neutral (s : St) (l : List Step) (hN : ∀ st ∈ l, neutral st = true) (hj : J s) : AllPre s l :=
+  fun j => J_neutral_steps _ s (fun st h => hN st (List.mem_of_mem_take h)) hj
+
+theorem allPre_append (s : St) (l1 l2 : List Step) (h1 : AllPre s l1) (h2 : AllPre (applySteps s l1) l2) :
+    AllPre s (l1 ++ l2) := by
+  intro j
+  rw [List.take_append]
+  by_cases hj : j ≤ l1.length
+  · have : j - l1.length = 0 := by omega
+    rw [this]; simpa using h1 j
+  · have : l1.take j = l1 := List.take_of_length_le (by omega)
+    rw [this, applySteps_append]; exact h2 _
+
+theorem allPre_single (s : St) (st : Step) (hj : J s) (h : J (applyStep s st)) : AllPre s [st] := by
+  intro j
+  match j with
+  | 0 => simpa [applySteps] using hj
+  | j + 1 => simpa [applySteps] using h
+
+theorem allPre_rebuild (s : St) (f : Bool) (o1 o2 : List Nat) (h1 : o1.Nodup) (h2 : o2.Nodup) (hj : J s) :
+    AllPre s (rebuildSteps s f o1 o2) := by
   unfold rebuildSteps
   split
-  · exact hj
-  · rw [applySteps_append, applySteps_append, applySteps_append, applySteps_append]
-    -- phase A: complete CRLs
-    have hA := phase (fun i => Step.putCRL i (counter s i) (if s.cfg.disable then [] else crlSerials s i) s.cfg.disable)
-      (counter s) (fun cur i => ⟨_, rfl, rfl, rfl⟩) (fun cur i => ⟨rfl, rfl, rfl⟩)
-      (o1.filter (· ∈ s.issuers)) (List.Nodup.sublist List.filter_sublist h1) s hj.inc
-      (fun e he hi => hj.bound e he (by simpa using (List.mem_filter.mp hi).2))
-    obtain ⟨a1, a2, a3, a4, a5⟩ := hA
-    generalize applySteps s _ = sA at a1 a2 a3 a4 a5 ⊢
-    -- stale deletes and the first counter write
-    have hB := neutral_steps (staleDeletes s) sA (fun st hst => by
-      rcases staleDeletes_kind s st hst with ⟨i, rfl⟩ | ⟨i, rfl⟩ <;> rfl)
-    obtain ⟨b1, b2, b3, _⟩ := hB
-    generalize applySteps sA (staleDeletes s) = sB at b1 b2 b3 ⊢
-    have hK1 : (applySteps sB [Step.putCounters (s.issuers.map fun i => (i, counter s i + 1))]).log = sB.log ∧
-        (applySteps sB [Step.putCounters (s.issuers.map fun i => (i, counter s i + 1))]).issuers = sB.issuers ∧
-        (applySteps sB [Step.putCounters (s.issuers.map fun i => (i, counter s i + 1))]).nIssuers = sB.nIssuers :=
-      ⟨rfl, rfl, rfl⟩
-    obtain ⟨k1, k2, k3⟩ := hK1
-    generalize applySteps sB [Step.putCounters _] = sK at k1 k2 k3 ⊢
-    have hlogK : sK.log = sA.log := k1.trans b1
-    -- phase D: delta CRLs
-    have hD := phase (fun i => Step.putDelta i (counter s i + 1)) (fun i => counter s i + 1)
-      (fun cur i => ⟨_, rfl, rfl, rfl⟩) (fun cur i => ⟨rfl, rfl, rfl⟩)
-      (o2.filter (· ∈ s.issuers)) (List.Nodup.sublist List.filter_sublist h2) sK (by rw [hlogK]; exact a1)
-      (fun e he hi => by
-        rw [hlogK] at he
-        have hlive : e.issuer ∈ s.issuers := by simpa using (List.mem_filter.mp hi).2
-        rcases a2 e he with h | ⟨_, h⟩
-        · exact Nat.lt_succ_of_lt (hj.bound e h hlive)
-        · omega)
-    obtain ⟨d1, d2, d3, d4, _⟩ := hD
-    generalize applySteps sK _ = sD at d1 d2 d3 d4 ⊢
-    have hiss : sD.issuers = s.issuers := d3.trans (k2.trans (b2.trans a3))
-    have hnis : sD.nIssuers = s.nIssuers := d4.trans (k3.trans (b3.trans a4))
-    have hev : ∀ e ∈ sD.log, e ∈ s.log ∨ (e.issuer ∈ s.issuers ∧ (e.number = counter s e.issuer ∨ e.number = counter s e.issuer + 1)) := by
+  · exact allPre_nil s hj
+  · have hlive : ∀ o : List Nat, ∀ a ∈ o.filter (· ∈ s.issuers), a ∈ s.issuers := fun o a ha => by
+      simpa using (List.mem_filter.mp ha).2
+    have hA0 : PhaseSt s 0 s.log s [] :=
+      ⟨rfl, rfl, hj.inc, fun e he => Or.inl he, fun i _ => by simp⟩
+    have hA := phase_prefix s 0 s.log
+      (fun i => Step.putCRL i (counter s i) (if s.cfg.disable then [] else crlSerials s i) s.cfg.disable)
+      (fun done => Step.putCounters (countersAt s 0 done true))
+      (fun e he hi => by have := hj.bound e he hi; omega)
+      (fun cur i => ⟨_, rfl, rfl, rfl, rfl, rfl, rfl⟩)
+      (fun cur dn => ⟨rfl, rfl, rfl, fun i hi => counter_countersAt s _ 0 dn true (fun _ => rfl) rfl i hi⟩)
+      (o1.filter (· ∈ s.issuers)) [] s (hlive o1) (List.Nodup.sublist List.filter_sublist h1) (fun _ _ h => by simp at h) hA0
+    have hD := fun (log0 : List Ev) (h0 : ∀ e ∈ log0, e.issuer ∈ s.issuers → e.number < counter s e.issuer + 1)
+        (cur : St) (hst : PhaseSt s 1 log0 cur []) =>
+      phase_prefix s 1 log0 (fun i => Step.putDelta i (counter s i + 1))
+        (fun done => Step.putCounters (countersAt s 1 done false)) h0
+        (fun cur i => ⟨_, rfl, rfl, rfl, rfl, rfl, rfl⟩)
+        (fun cur dn => ⟨rfl, rfl, rfl, fun i hi => counter_countersAt s _ 1 dn false (fun h => by simp at h) rfl i hi⟩)
+        (o2.filter (· ∈ s.issuers)) [] cur (hlive o2) (List.Nodup.sublist List.filter_sublist h2) (fun _ _ h => by simp at h) hst
+    generalize phaseSteps (fun i => Step.putCRL i (counter s i) (if s.cfg.disable then [] else crlSerials s i) s.cfg.disable)
+      (fun done => Step.putCounters (countersAt s 0 done true)) [] (o1.filter (· ∈ s.issuers)) = A at hA ⊢
+    generalize phaseSteps (fun i => Step.putDelta i (counter s i + 1))
+      (fun done => Step.putCounters (countersAt s 1 done false)) [] (o2.filter (· ∈ s.issuers)) = D at hD ⊢
+    have hJA : ∀ cur done, PhaseSt s 0 s.log cur done → J cur := fun cur done h =>
+      J_of_phaseSt s 0 s.log cur done (fun e he hi => by have := hj.bound e he hi; omega) hj.evIss hj.issLe h
+    -- the state after phase A and after the stale deletes
+    obtain ⟨dA, hdA⟩ := hA A.length
+    rw [List.take_length] at hdA
+    have hBn : ∀ st ∈ staleDeletes s, neutral st = true := fun st hst => by
+      rcases staleDeletes_kind s st hst with ⟨i, rfl⟩ | ⟨i, rfl⟩ <;> rfl
+    obtain ⟨b1, b2, b3, b4⟩ := neutral_steps (staleDeletes s) (applySteps s A) hBn
+    have hdB : PhaseSt s 0 s.log (applySteps (applySteps s A) (staleDeletes s)) dA :=
+      ⟨b2.trans hdA.iss, b3.trans hdA.nis, by rw [b1]; exact hdA.inc, by rw [b1]; exact hdA.evs,
+        fun i hi => by rw [← hdA.cnt i hi]; simp [counter, b4]⟩
+    generalize hsB : applySteps (applySteps s A) (staleDeletes s) = sB at hdB
+    have hlogB : ∀ e ∈ sB.log, e.issuer ∈ s.issuers → e.number < counter s e.issuer + 1 := by
+      intro e he hi
+      rcases hdB.evs e he with hl | ⟨_, _, hn⟩
+      · have := hj.bound e hl hi; omega
+      · omega
+    have hevB : ∀ e ∈ sB.log, e.issuer ≤ s.nIssuers := by
       intro e he
-      rcases d2 e he with h | ⟨h, hn⟩
-      · rw [hlogK] at h
-        rcases a2 e h with h | ⟨h, hn⟩
-        · exact Or.inl h
-        · exact Or.inr ⟨by simpa using (List.mem_filter.mp h).2, Or.inl hn⟩
-      · exact Or.inr ⟨by simpa using (List.mem_filter.mp h).2, Or.inr hn⟩
-    refine ⟨d1, fun e he hi => ?_, fun e he => ?_, fun i hi => ?_⟩
-    · have hi' : e.issuer ∈ s.issuers := by
-        simpa [applySteps, applyStep, hiss] using hi
-      have hc : counter (applySteps sD [Step.putCounters (s.issuers.map fun i => (i, counter s i + 2))]) e.issuer
-          = counter s e.issuer + 2 := by
-        apply counter_of_lookup
-        exact lookup_map_mk s.issuers (fun i => counter s i + 2) e.issuer hi'
-      rw [hc]
-      rcases hev e (by simpa [applySteps, applyStep] using he) with h | ⟨_, h | h⟩
-      · have := hj.bound e h hi'; omega
-      · omega
-      · omega
-    · have : (applySteps sD [Step.putCounters (s.issuers.map fun i => (i, counter s i + 2))]).nIssuers = s.nIssuers := hnis
-      rw [this]
-      rcases hev e (by simpa [applySteps, applyStep] using he) with h | ⟨h, _⟩
-      · exact hj.evIss e h
-      · exact hj.issLe _ h
-    · have : (applySteps sD [Step.putCounters (s.issuers.map fun i => (i, counter s i + 2))]).nIssuers = s.nIssuers := hnis
-      rw [this]
-      exact hj.issLe i (by simpa [applySteps, applyStep, hiss] using hi)
-
-theorem J_neutral_rebuild (s : St) (N : List Step) (hN : ∀ st ∈ N, neutral st = true) (f : Bool) (o1 o2 : List Nat)
-    (h1 : o1.Nodup) (h2 : o2.Nodup) (hj : J s) :
-    J (applySteps s N) ∧ J (applySteps s (N ++ rebuildSteps (applySteps s N) f o1 o2)) := by
-  have := J_neutral_steps N s hN hj
-  exact ⟨this, by rw [applySteps_append]; exact J_rebuild _ f o1 o2 h1 h2 this⟩
+      rcases hdB.evs e he with hl | ⟨_, hl, _⟩
+      · exact hj.evIss e hl
+      · exact hj.issLe _ hl
+    have hK1 : PhaseSt s 1 sB.log (applyStep sB (Step.putCounters (s.issuers.map fun i => (i, counter s i + 1)))) [] := by
+      refine ⟨hdB.iss, hdB.nis, hdB.inc, fun e he => Or.inl he, fun i hi => ?_⟩
+      rw [counter_of_lookup _ i (counter s i + 1) (lookup_map_mk s.issuers (fun i => counter s i + 1) i hi)]
+      simp
+    have hJD : ∀ cur done, PhaseSt s 1 sB.log cur done → J cur := fun cur done h =>
+      J_of_phaseSt s 1 sB.log cur done hlogB hevB hj.issLe h
+    have hDD := hD sB.log hlogB _ hK1
+    refine allPre_append _ _ _ (allPre_append _ _ _ (allPre_append _ _ _ (allPre_append _ _ _ ?_ ?_) ?_) ?_) ?_
+    · intro j; obtain ⟨d, hd⟩ := hA j; exact hJA _ d hd
+    · exact allPre_neutral _ _ hBn (hJA _ dA hdA)
+    · rw [applySteps_append, hsB]
+      exact allPre_single _ _ (hJA _ dA hdB) (hJD _ [] hK1)
+    · rw [applySteps_append, applySteps_append, hsB]
+      intro j
+      obtain ⟨d, hd⟩ := hDD j
+      exact hJD _ d hd
+    · rw [applySteps_append, applySteps_append, applySteps_append, hsB]
+      obtain ⟨dD, hdD⟩ := hDD D.length
+      rw [List.take_length] at hdD
+      have e1 : applySteps sB [Step.putCounters (s.issuers.map fun i => (i, counter s i + 1))] =
+          applyStep sB (Step.putCounters (s.issuers.map fun i => (i, counter s i + 1))) := rfl
+      rw [e1]
+      generalize applySteps (applyStep sB (Step.putCounters (s.issuers.map fun i => (i, counter s i + 1)))) D = sD at hdD ⊢
+      refine allPre_single _ _ (hJD _ dD hdD) ?_
+      refine ⟨hdD.inc, fun e he hi => ?_, fun e he => ?_, fun i hi => ?_⟩
+      · have hi' : e.issuer ∈ s.issuers := by rw [← hdD.iss]; exact hi
+        rw [counter_of_lookup _ e.issuer (counter s e.issuer + 2) (lookup_map_mk s.issuers (fun i => counter s i + 2) _ hi')]
+        rcases hdD.evs e he with hl | ⟨_, _, hn⟩
+        · have := hlogB e hl hi'; omega
+        · omega
+      · show e.issuer ≤ sD.nIssuers
+        rw [hdD.nis]
+        rcases hdD.evs e he with hl | ⟨_, hl, _⟩
+        · exact hevB e hl
+        · exact hj.issLe _ hl
+      · show i ≤ sD.nIssuers
+        rw [hdD.nis]; exact hj.issLe i (by rw [← hdD.iss]; exact hi)
 
 theorem lookup_filter_keep {β : Type} (l : List (Nat × β)) (p : Nat → Bool) (i : Nat) (h : p i = true) :
     (l.filter (fun q => p q.1)).lookup i = l.lookup i := by
@@ -219,70 +348,83 @@ theorem revokeProg_shape (s : St) (k : Nat) (b : Bool) (o1 o2 : List Nat) :
             · exact ⟨_, hrec, Or.inl rfl⟩
             · exact ⟨_, hrec, Or.inr rfl⟩
 
-theorem J_addIssuer (s : St) (o1 o2 : List Nat) (h1 : o1.Nodup) (h2 : o2.Nodup) (hj : J s) :
-    J (applySteps s (addIssuerProg s o1 o2).1) := by
+theorem allPre_addIssuer (s : St) (o1 o2 : List Nat) (h1 : o1.Nodup) (h2 : o2.Nodup) (hj : J s) :
+    AllPre s (addIssuerProg s o1 o2).1 := by
   simp only [addIssuerProg]
-  rw [applySteps_append, applySteps_append]
-  have hs1 : J (applySteps s [Step.addIssuer (s.nIssuers + 1)]) := by
+  have hs1 : J (applyStep s (Step.addIssuer (s.nIssuers + 1))) := by
     refine ⟨hj.inc, fun e he hi => ?_, fun e he => ?_, fun i hi => ?_⟩
     · have hi' : e.issuer ∈ s.issuers ∨ e.issuer = s.nIssuers + 1 := by
-        simpa [applySteps, applyStep] using hi
+        simpa [applyStep] using hi
       rcases hi' with h | h
       · exact hj.bound e he h
       · have := hj.evIss e he; omega
     · have := hj.evIss e he
       show e.issuer ≤ s.nIssuers + 1
       omega
-    · have hi' : i ∈ s.issuers ∨ i = s.nIssuers + 1 := by simpa [applySteps, applyStep] using hi
+    · have hi' : i ∈ s.issuers ∨ i = s.nIssuers + 1 := by simpa [applyStep] using hi
       show i ≤ s.nIssuers + 1
       rcases hi' with h | h
       · have := hj.issLe i h; omega
       · omega
-  generalize hg : applySteps s [Step.addIssuer (s.nIssuers + 1)] = s1 at hs1
-  have hs1' : s1 = applyStep s (Step.addIssuer (s.nIssuers + 1)) := hg.symm
-  have hs2 : J (applySteps s1 (if s.dflt.isNone = true then
-      [Step.putCounters (s.counters.filter fun p => decide (p.1 ∈ s.issuers))] else [])) := by
+  refine allPre_append _ _ _ (allPre_append _ _ _ (allPre_single _ _ hj hs1) ?_) ?_
+  · show AllPre (applyStep s (Step.addIssuer (s.nIssuers + 1))) _
     split
-    · refine ⟨hs1.inc, fun e he hi => ?_, hs1.evIss, hs1.issLe⟩
-      have hlog : e ∈ s.log := by rw [hs1'] at he; exact he
+    · refine allPre_single _ _ hs1 ⟨hs1.inc, fun e he hi => ?_, hs1.evIss, hs1.issLe⟩
+      have hlog : e ∈ s.log := he
       have hi' : e.issuer ∈ s.issuers ∨ e.issuer = s.nIssuers + 1 := by
-        rw [hs1'] at hi; simpa [applySteps, applyStep] using hi
+        simpa [applyStep] using hi
       rcases hi' with h | h
       · have hb := hj.bound e hlog h
-        have : counter (applySteps s1 [Step.putCounters (s.counters.filter fun p => decide (p.1 ∈ s.issuers))]) e.issuer
-            = counter s e.issuer := by
+        have : counter (applyStep (applyStep s (Step.addIssuer (s.nIssuers + 1)))
+            (Step.putCounters (s.counters.filter fun p => decide (p.1 ∈ s.issuers)))) e.issuer = counter s e.issuer := by
+          simp only [applyStep, counter]
+          rw [lookup_filter_keep s.counters (fun i => decide (i ∈ s.issuers)) e.issuer (by simpa using h)]
+        rw [this]; exact hb
+      · have := hj.evIss e hlog; omega
+    · exact allPre_nil _ hs1
+  · rw [applySteps_append]
+    show AllPre (applySteps (applyStep s (Step.addIssuer (s.nIssuers + 1))) _) _
+    refine allPre_rebuild _ true o1 o2 h1 h2 ?_
+    split
+    · refine ⟨hs1.inc, fun e he hi => ?_, hs1.evIss, hs1.issLe⟩
+      have hlog : e ∈ s.log := he
+      have hi' : e.issuer ∈ s.issuers ∨ e.issuer = s.nIssuers + 1 := by
+        simpa [applySteps, applyStep] using hi
+      rcases hi' with h | h
+      · have hb := hj.bound e hlog h
+        have : counter (applySteps (applyStep s (Step.addIssuer (s.nIssuers + 1)))
+            [Step.putCounters (s.counters.filter fun p => decide (p.1 ∈ s.issuers))]) e.issuer = counter s e.issuer := by
           simp only [applySteps, List.foldl_cons, List.foldl_nil, applyStep, counter]
           rw [lookup_filter_keep s.counters (fun i => decide (i ∈ s.issuers)) e.issuer (by simpa using h)]
         rw [this]; exact hb
       · have := hj.evIss e hlog; omega
     · exact hs1
-  subst hs1'
-  exact J_rebuild _ true o1 o2 h1 h2 hs2
 
-theorem J_exec (s : St) (r : Run) (hc : r.cut = none) (h1 : r.o1.Nodup) (h2 : r.o2.Nodup) (hj : J s) : J (exec s r) := by
-  obtain ⟨op, o1, o2, cut⟩ := r
-  simp only at hc h1 h2
-  subst hc
-  simp only [exec, cutSteps]
+/-- every prefix of every request program keeps the numbering invariant -/
+theorem allPre_prog (s : St) (o1 o2 : List Nat) (op : Op) (h1 : o1.Nodup) (h2 : o2.Nodup) (hj : J s) :
+    AllPre s (prog s o1 o2 op).1 := by
+  have hNR : ∀ (N : List Step), (∀ st ∈ N, neutral st = true) → ∀ f,
+      AllPre s (N ++ rebuildSteps (applySteps s N) f o1 o2) := fun N hN f =>
+    allPre_append _ _ _ (allPre_neutral s N hN hj) (allPre_rebuild _ f o1 o2 h1 h2 (J_neutral_steps N s hN hj))
   cases op with
-  | addIssuer => exact J_addIssuer s o1 o2 h1 h2 hj
+  | addIssuer => exact allPre_addIssuer s o1 o2 h1 h2 hj
   | importIssuer col =>
     cases col with
-    | none => exact J_addIssuer s o1 o2 h1 h2 hj
+    | none => exact allPre_addIssuer s o1 o2 h1 h2 hj
     | some k =>
       simp only [prog, importIssuerProg]
       split
-      · exact hj
-      · rw [applySteps_cons]
-        exact J_addIssuer _ o1 o2 h1 h2
-          (J_neutral_steps [Step.noteSerial (s.nIssuers + 1) k] s
-            (by intro st h; simp only [List.mem_singleton] at h; subst h; rfl) hj)
+      · exact allPre_nil s hj
+      · have hn : ∀ st ∈ [Step.noteSerial (s.nIssuers + 1) k], neutral st = true := by
+          intro st h; simp only [List.mem_singleton] at h; subst h; rfl
+        have := allPre_append s [Step.noteSerial (s.nIssuers + 1) k] _ (allPre_neutral s _ hn hj)
+          (allPre_addIssuer _ o1 o2 h1 h2 (J_neutral_steps _ s hn hj))
+        simpa [applySteps] using this
   | delIssuer i =>
     simp only [prog, delIssuerProg]
     split
-    · exact hj
-    · rw [applySteps_append]
-      have hs1 : J (applySteps s [Step.delIssuer i]) := by
+    · exact allPre_nil s hj
+    · have hs1 : J (applyStep s (Step.delIssuer i)) := by
         refine ⟨hj.inc, fun e he hi => ?_, hj.evIss, fun j hjm => ?_⟩
         · have hi' : e.issuer ∈ s.issuers := by
             have : e.issuer ∈ s.issuers.filter (· != i) := hi
@@ -290,50 +432,58 @@ theorem J_exec (s : St) (r : Run) (hc : r.cut = none) (h1 : r.o1.Nodup) (h2 : r.
           exact hj.bound e he hi'
         · have : j ∈ s.issuers.filter (· != i) := hjm
           exact hj.issLe j (List.mem_filter.mp this).1
-      exact J_rebuild _ true o1 o2 h1 h2 hs1
+      exact allPre_append _ _ _ (allPre_single _ _ hj hs1) (allPre_rebuild _ true o1 o2 h1 h2 hs1)
   | issue i ttl =>
     simp only [prog, issueProg]
     split
-    · exact hj
-    · exact J_neutral_steps _ s (by intro st h; simp only [List.mem_singleton] at h; subst h; rfl) hj
+    · exact allPre_nil s hj
+    · exact allPre_neutral s _ (by intro st h; simp only [List.mem_singleton] at h; subst h; rfl) hj
   | craft i v =>
     simp only [prog, craftProg]
     split
-    · exact hj
-    · exact J_neutral_steps _ s (by intro st h; simp only [List.mem_singleton] at h; subst h; rfl) hj
+    · exact allPre_nil s hj
+    · exact allPre_neutral s _ (by intro st h; simp only [List.mem_singleton] at h; subst h; rfl) hj
   | revoke k b =>
     simp only [prog]
     obtain ⟨N, hN, h | h⟩ := revokeProg_shape s k b o1 o2
-    · rw [h]; exact J_neutral_steps N s hN hj
-    · rw [h]; exact (J_neutral_rebuild s N hN false o1 o2 h1 h2 hj).2
-  | rotate => exact J_rebuild s false o1 o2 h1 h2 hj
+    · rw [h]; exact allPre_neutral s N hN hj
+    · rw [h]; exact hNR N hN false
+  | rotate => exact allPre_rebuild s false o1 o2 h1 h2 hj
   | tidy cs rc assoc =>
     simp only [prog, tidyProg]
     have hN : ∀ st ∈ tidyPass1 s cs rc ++ tidyPass2 s cs rc assoc, neutral st = true := by
       intro st h
       rcases tidyPass_kind s cs rc assoc st h with ⟨_, rfl, _⟩ | ⟨_, rfl, _⟩ | ⟨_, _, rfl, _⟩ <;> rfl
     split
-    · exact (J_neutral_rebuild s _ hN false o1 o2 h1 h2 hj).2
-    · rw [List.append_nil]; exact J_neutral_steps _ s hN hj
+    · exact hNR _ hN false
+    · rw [List.append_nil]; exact allPre_neutral s _ hN hj
   | config a d x =>
     simp only [prog, configProg]
     have hN : ∀ st ∈ [Step.putCfg ⟨orKeep a s.cfg.autoRebuild, orKeep d s.cfg.disable, orKeep x s.cfg.allowExpired⟩],
         neutral st = true := by
       intro st h; simp only [List.mem_singleton] at h; subst h; rfl
     split
-    · exact (J_neutral_rebuild s _ hN true o1 o2 h1 h2 hj).2
-    · rw [List.append_nil]; exact J_neutral_steps _ s hN hj
-  | restart => exact hj
-  | tick d => exact J_neutral_steps _ s (by intro st h; simp only [prog, List.mem_singleton] at h; subst h; rfl) hj
+    · exact hNR _ hN true
+    · rw [List.append_nil]; exact allPre_neutral s _ hN hj
+  | restart => exact allPre_nil s hj
+  | tick d => exact allPre_neutral s _ (by intro st h; simp only [prog, List.mem_singleton] at h; subst h; rfl) hj
+
+/-- one request, interrupted anywhere or not, keeps the numbering invariant -/
+theorem J_exec (s : St) (r : Run) (h1 : r.o1.Nodup) (h2 : r.o2.Nodup) (hj : J s) : J (exec s r) := by
+  have h := allPre_prog s r.o1 r.o2 r.op h1 h2 hj
+  simp only [exec]
+  cases r.cut with
+  | none => exact h.full
+  | some j => exact h j
 
 theorem J_init : J init := ⟨List.Pairwise.nil, by simp [init], by simp [init], by simp [init]⟩
 
-theorem J_run (h : List Run) : ∀ s, (∀ r ∈ h, r.cut = none ∧ r.o1.Nodup ∧ r.o2.Nodup) → J s → J (run s h) := by
+theorem J_run (h : List Run) : ∀ s, (∀ r ∈ h, r.o1.Nodup ∧ r.o2.Nodup) → J s → J (run s h) := by
   induction h with
   | nil => intro s _ hj; exact hj
   | cons r h ih =>
     intro s hh hj
     have hr := hh r (List.mem_cons_self ..)
-    exact ih (exec s r) (fun r' hr' => hh r' (List.mem_cons_of_mem _ hr')) (J_exec s r hr.1 hr.2.1 hr.2.2 hj)
+    exact ih (exec s r) (fun r' hr' => hh r' (List.mem_cons_of_mem _ hr')) (J_exec s r hr.1 hr.2 hj)
 
 end Obao.PKIRevoke
